@@ -1,4 +1,5 @@
 import GapicModel.Model.Selective
+import GapicModel.Pinned.Funcs
 /-
 C16 — selective generation keeps exactly the listed RPCs and a closed set of types (DESIGN §7.16).
 
@@ -1012,6 +1013,34 @@ theorem client_names (s : Service) :
     (s.isInternal = false → s.clientName = s.name ++ "Client".toList ∧
         s.asyncClientName = s.name ++ "AsyncClient".toList) := by
   constructor <;> intro h <;> simp [Service.clientName, Service.asyncClientName, h]
+
+/-- Link to the source: `Pinned.Funcs.service_client_name` / `service_async_client_name` are the Lean translations of
+`gapic/schema/wrappers.py: Service.client_name / async_client_name` (harness/pyfun2lean.py; kept equal to the
+current source by the bridge lemmas `Bridge.Funcs.service_client_name`, `…service_async_client_name`).  The model's
+own functions ARE these translations, so `client_names`, `base_prefix_iff` and `internal_names` are about the code:
+the prefix `Base` is added iff the service is internal, whatever the service's own name starts with. -/
+theorem clientName_is_translated (s : Service) :
+    s.clientName = Pinned.Funcs.service_client_name s.isInternal s.name ∧
+    s.asyncClientName = Pinned.Funcs.service_async_client_name s.isInternal s.name := by
+  constructor <;>
+    simp [Service.clientName, Service.asyncClientName, Pinned.Funcs.service_client_name,
+      Pinned.Funcs.service_async_client_name]
+
+/-- `utils.make_private` of the model is the translation of `gapic/utils/code.py: make_private`. -/
+theorem makePrivate_is_translated (n : List Char) : makePrivate n = Pinned.Funcs.make_private n := by
+  unfold makePrivate Pinned.Funcs.make_private PyRt.startswith
+  cases n with
+  | nil => simp
+  | cons c cs =>
+    by_cases h : c = '_'
+    · subst h; simp
+    · simp [h]
+      exact fun e => h e.symm
+
+/-- a service whose name already starts with `Base` is prefixed again when it is internal (BaseBaselineClient) -/
+example : (Pinned.Funcs.service_client_name true "Baseline".toList) = "BaseBaselineClient".toList ∧
+    (Pinned.Funcs.service_async_client_name true "Base".toList) = "BaseBaseAsyncClient".toList ∧
+    (Pinned.Funcs.service_client_name false "Baseline".toList) = "BaselineClient".toList := by decide
 
 /-- … and after `with_internal_methods` that is: exactly when the service has an unlisted method
 (or already had an internal one). -/
